@@ -45,6 +45,7 @@ class ExecBase:
         self.lean_specs = False
         self.let_env = {}
         self.loop_ids = {}
+        self.cur_line, self.stmt_counters, self.inline_stack = 0, {}, []
         self.discovered_init = set()
 
     # ------------------------------------------------------------------ utilities
